@@ -17,14 +17,15 @@ LEVEL = "exploration"
 RULE = ("(A) every (dispatcher, argument-type tuple) observed while running engines E1,E2,E4,E8,E9,E10,E12-synth (term interpretations and op "
         "dispatchers): chosen rule's signature must be <= every matching signature under an independent position-wise order; the same rule "
         "must be chosen after clearing the dispatch cache and by a dispatcher rebuilt from the same registrations in 3 shuffled orders; "
-        "(B) pool of observed + registered + synthetic parametric types (Tuple, variadic Tuple, Union, FrozenSet, Any, op classes, "
+        "(A') synthesised argument-type tuples (python / numpy scalars, arrays, tuples, lists, funsor terms in every position) for the dispatcher "
+        "of every op class; (B) pool of observed + registered + synthetic parametric types (Tuple, variadic Tuple, Union, FrozenSet, Any, op classes, "
         "parametrised term types): reflexivity, transitivity (all triples via the boolean matrix), subtype soundness w.r.t. an independent "
         "membership predicate on sampled values, deep_isinstance vs that predicate. A case is one observed type tuple / one (value, type) pair; "
         "non-trivial when >=2 signatures match or the type is parametric; distinct by repr")
 ASSUMPTIONS = ["plain-class issubclass/isinstance as the base relation", "empty tuples/frozensets are excluded (deep_type of an empty collection is the bare collection type by design)"]
 MIN_NONTRIVIAL = {"quick": 1500, "thorough": 6000}
 REQUIRED_COUNTERS = ["dispatch:observed-type-tuples", "dispatch:most-specific-ok", "dispatch:cache-cleared-same", "dispatch:shuffled-registration-same",
-                     "axioms:reflexive-ok", "axioms:transitive-pairs", "membership:agree"]
+                     "axioms:reflexive-ok", "axioms:transitive-pairs", "membership:agree", "synth:type-tuples"]
 
 
 def plan(tier, seed):
@@ -34,6 +35,9 @@ def plan(tier, seed):
         for e in engs:
             shards.append({"name": "obs-%s-%d" % (e, r), "kind": "observe", "engine": e, "n": 120 if tier == "quick" else 300, "timeout": 3000})
     shards.append({"name": "axioms", "kind": "axioms", "timeout": 3000})
+    nsy = 4 if tier == "quick" else 8
+    for i in range(nsy):
+        shards.append({"name": "synth-ops-%d" % i, "kind": "synth-ops", "index": i, "of": nsy, "timeout": 3000})
     return shards
 
 
@@ -101,6 +105,8 @@ def run_shard(shard, res):
     rng = shard_rng(shard["seed"], ID, shard["name"])
     if shard["kind"] == "axioms":
         return run_axioms(res, rng)
+    if shard["kind"] == "synth-ops":
+        return run_synth_ops(shard, res, rng)
     return run_observe(shard, res, rng)
 
 
@@ -138,10 +144,97 @@ def run_observe(shard, res, rng):
             check_dispatch(disp, types, res, rng)
 
 
+def run_synth_ops(shard, res, rng):
+    """synthesised argument tuples for the dispatcher of every op class: python scalars (virtual subclasses of the numbers ABCs), numpy
+    scalars and arrays, tuples/lists and funsor terms in every position"""
+    from collections import OrderedDict
+
+    import funsor
+    import funsor.ops as ops
+    from funsor.domains import Bint, Real
+    from funsor.ops.op import Op
+    from funsor.tensor import Tensor
+    from funsor.terms import Number, Variable
+    from funsor.typing import deep_type, typing_wrap
+
+    values = [0.5, 2, True, np.float64(0.5), np.int64(3), np.array([0.5, 1.5]), np.array(1.0), np.array([1, 2]), (0.5, 1.5), [0.5, 1.5],
+              (np.array([0.5]), np.array([1.5])), Number(1.5), Number(1, 3), Tensor(np.array([0.5, 1.5]), OrderedDict(i=Bint[2])), Tensor(np.array(0.5)),
+              Variable("x", Real), Variable("x", Real) + 1.0, None, "s"]
+    types = []
+    for v in values:
+        try:
+            types.append(typing_wrap(deep_type(v)))
+        except Exception:
+            res.count("synth:deep_type-declined")
+    seen = set()
+    classes = []
+    stack = [Op]
+    while stack:
+        c = stack.pop()
+        for sub in c.__subclasses__():
+            if sub not in seen:
+                seen.add(sub)
+                stack.append(sub)
+                classes.append(sub)
+    classes.sort(key=lambda c: c.__name__)
+    n = 0
+    for ci, cls in enumerate(classes):
+        if ci % shard["of"] != shard["index"]:
+            continue
+        disp = cls.__dict__.get("dispatcher") or getattr(cls, "dispatcher", None)
+        if disp is None or not hasattr(disp, "funcs") or not isinstance(getattr(cls, "arity", None), int):
+            continue
+        res.observe("synth-op-classes", cls.__name__)
+        arity = cls.arity
+        combos = list(itertools.product(types, repeat=arity)) if arity <= 2 else [tuple(types[int(j)] for j in rng.integers(len(types), size=arity)) for _ in range(300)]
+        for tt in combos:
+            check_dispatch(disp, tt, res, rng)
+            n += 1
+    res.count("synth:type-tuples", n)
+
+
 def fname(fn):
     fn = getattr(fn, "default", fn)
     fn = getattr(fn, "fn", fn)
     return "%s.%s" % (getattr(fn, "__module__", "?"), getattr(fn, "__qualname__", getattr(fn, "__name__", repr(fn))))
+
+
+def rule_of(fn):
+    """the registered rule function behind wrappers (PartialDefault, functools.partial made by subclass_register)"""
+    for _ in range(4):
+        nxt = getattr(fn, "default", None) or getattr(fn, "fn", None) or getattr(fn, "func", None)
+        if nxt is None or nxt is fn:
+            break
+        fn = nxt
+    return fn
+
+
+def most_specific_exists(disp, types):
+    try:
+        chosen = disp.dispatch(*types)
+    except Exception:
+        return False
+    ms = [s for s in disp.funcs if sig_matches(types, s)]
+    csigs = [s for s in ms if disp.funcs[s] is chosen]
+    others = [s for s in ms if rule_of(disp.funcs[s]) is not rule_of(chosen)]
+    return bool(csigs) and any(all(sig_leq(cs, s) for s in others) for cs in csigs)
+
+
+def dual_scalar_ambiguity(disp, types):
+    """True iff the ambiguity is due to numpy scalar types, which are numpy.generic (funsor's `array` pattern) AND registered with the
+    numbers ABCs / subclasses of float (the scalar patterns): with each such argument type replaced by a pure array type
+    (numpy.ndarray) or a pure python number (float), in every combination, the dispatcher does pick a most specific pattern"""
+    from funsor.typing import typing_wrap
+
+    pos = [i for i, t in enumerate(types) if isinstance(unwrap(t), type) and issubclass(unwrap(t), np.generic)]
+    if not pos:
+        return False
+    for combo in itertools.product((np.ndarray, float), repeat=len(pos)):
+        sub = dict(zip(pos, combo))
+        t2 = tuple(typing_wrap(sub[i]) if i in sub else t for i, t in enumerate(types))
+        if not most_specific_exists(disp, t2):
+            return False
+    return True
 
 
 def check_dispatch(disp, types, res, rng):
@@ -166,8 +259,14 @@ def check_dispatch(disp, types, res, rng):
     if not csigs:
         res.violation("dispatch:chosen-does-not-match", "%s chose %s for %s although none of its signatures matches under the independent matcher" % (disp.name, fname(chosen), tname))
         return
-    if not any(all(sig_leq(cs, s) for s in ms) for cs in csigs):
-        more = [fname(disp.funcs[s]) for s in ms if not any(sig_leq(cs, s) for cs in csigs)]
+    # patterns registered for the chosen rule itself do not compete with it: (Funsor, object, object) and (object, object, Funsor) both
+    # lead to the same rule function
+    others = [s for s in ms if rule_of(disp.funcs[s]) is not rule_of(chosen)]
+    if not any(all(sig_leq(cs, s) for s in others) for cs in csigs):
+        more = [fname(disp.funcs[s]) for s in others if not any(sig_leq(cs, s) for cs in csigs)]
+        if dual_scalar_ambiguity(disp, types):
+            res.violation("dispatch:not-most-specific+numpy-scalar-is-number-and-generic", "%s chose %s for %s: numpy scalar types are numpy.generic and also numbers.Number (float64 is even a float), so a scalar pattern and an array pattern both match and neither is more specific" % (disp.name, fname(chosen), tname))
+            return
         res.violation("dispatch:not-most-specific", "%s chose %s for %s but its pattern is not at least as specific as the matching pattern(s) of %s" % (disp.name, fname(chosen), tname, sorted(set(more))[:4]))
         return
     res.count("dispatch:most-specific-ok")
@@ -175,7 +274,7 @@ def check_dispatch(disp, types, res, rng):
     try:
         disp._cache.clear()
         again = disp.dispatch(*types)
-        if again is not chosen:
+        if rule_of(again) is not rule_of(chosen):
             res.violation("dispatch:depends-on-cache", "%s chose %s for %s, but %s after clearing its cache" % (disp.name, fname(chosen), tname, fname(again)))
         else:
             res.count("dispatch:cache-cleared-same")
@@ -197,7 +296,7 @@ def check_dispatch(disp, types, res, rng):
             except Exception as e:
                 res.count("dispatch:shuffle-error:%s" % type(e).__name__)
                 break
-            if c2 is not chosen:
+            if rule_of(c2) is not rule_of(chosen):
                 res.violation("dispatch:depends-on-registration-order", "%s chooses %s for %s, but a dispatcher rebuilt from the same registrations in another order chooses %s" % (
                     disp.name, fname(chosen), tname, fname(c2)))
                 break
